@@ -180,20 +180,18 @@ def parent_shards(tier, seed):
     for shape in ('named', 'tuple'):
         for kind in KINDS:
             for variant in ('bare', 'param', 'nested'):
-                if tier == 'quick' and (KINDS.index(kind) + ['bare', 'param', 'nested'].index(variant) + seed) % 2:
-                    continue
-                out.append({'family': 'parent', 'shape': shape, 'kind': kind, 'fallible': (KINDS.index(kind) % 2 == 1), 'variant': variant})
+                out.append({'family': 'parent', 'shape': shape, 'kind': kind, 'variant': variant})
     return out
 
 
 def make_parent(sh):
-    shape, kind, fallible, variant = sh['shape'], sh['kind'], sh['fallible'], sh['variant']
-    tn = BASIC_NAME[(kind, fallible)]
-    err = 'Er' if fallible else None
+    shape, kind, variant = sh['shape'], sh['kind'], sh['variant']
+    names = [BASIC_NAME[(kind, False)], BASIC_NAME[(kind, True)]]
 
     def make():
-        t1 = TraitInstr(tn, 'X', err=err, hint=Ch('th', ['Unspecified', 'Struct', 'Tuple']), tag='t1')
-        t2 = TraitInstr(tn, 'Y', err=err, tag='t2')
+        # both fallibilities: the instruction name and the presence of the error type are symbolic (mismatches are rejected by validation)
+        t1 = TraitInstr(Ch('tn', names), 'X', err=Ch('te', [None, 'Er']), hint=Ch('th', ['Unspecified', 'Struct', 'Tuple']), tag='t1')
+        t2 = TraitInstr(Ch('tn2', names), 'Y', err=Ch('te2', [None, 'Er']), tag='t2')
         nm = (lambda s: s) if shape == 'named' else (lambda s: None)
         if variant == 'bare':
             p = ParentInstr(ded=Ch('pd', [None, 'X', 'Y']))
@@ -257,8 +255,46 @@ def make_enum(sh):
     return make
 
 
-FAMILIES = {'flat': make_flat, 'params': make_params, 'ghosts': make_ghosts, 'child': make_child, 'parent': make_parent, 'enum': make_enum}
-SHARDERS = {'flat': flat_shards, 'params': params_shards, 'ghosts': ghosts_shards, 'child': child_shards, 'parent': parent_shards, 'enum': enum_shards}
+# ------------------------------------------------------------------------------------------ C04: trait instruction sets
+C04_TYS = [('X', None), ('m::X', None), ('X', [('ty', 'T')]), (('tuple', 'i32, i64'), None)]
+C04_ERRS = ['Er', 'm::Er']
+
+
+def c04_shards(tier, seed):
+    out = []
+    for item in ('struct', 'enum'):
+        for k in ((1, 2) if tier == 'quick' else (1, 2, 3)):
+            for order in ((0,) if k == 1 else (0, 1)):
+                for tyform in range(len(C04_TYS)):
+                    if tier == 'quick' and (tyform + k + order + (item == 'enum') + seed) % 2:
+                        continue
+                    if item == 'enum' and tyform == 3:
+                        continue
+                    out.append({'family': 'c04', 'item': item, 'k': k, 'order': order, 'tyform': tyform, 'errform': (tyform + k) % len(C04_ERRS)})
+    return out
+
+
+def make_c04(sh):
+    item, k, order, tyform, errform = sh['item'], sh['k'], sh['order'], sh['tyform'], sh['errform']
+
+    def make():
+        ty, gen = C04_TYS[tyform]
+        err = C04_ERRS[errform]
+        others = [('Y', None), ('Z', None)]
+        tis = [TraitInstr(Ch('tn0', TRAIT_NAMES), ty, err=Ch('te0', [None, err]), tag='t0', ty_generics=TyGenerics(gen) if gen else None)]
+        for j in range(1, k):
+            tis.append(TraitInstr(Ch('tn%d' % j, TRAIT_NAMES), others[j - 1][0], err=Ch('te%d' % j, [None, err]), tag='t%d' % j))
+        if order:
+            tis = tis[::-1]
+        tys = tuple(sorted({t.ty if isinstance(t.ty, str) else '(tuple)' for t in tis}))
+        if item == 'struct':
+            return Spec('struct', shape='named', traits=tis, members=[Member('a')], tys=tys)
+        return Spec('enum', traits=tis, members=[Member('A', shape='unit')], tys=tys)
+    return make
+
+
+FAMILIES = {'c04': make_c04, 'flat': make_flat, 'params': make_params, 'ghosts': make_ghosts, 'child': make_child, 'parent': make_parent, 'enum': make_enum}
+SHARDERS = {'c04': c04_shards, 'flat': flat_shards, 'params': params_shards, 'ghosts': ghosts_shards, 'child': child_shards, 'parent': parent_shards, 'enum': enum_shards}
 
 
 def make(sh):
@@ -267,6 +303,6 @@ def make(sh):
 
 def all_shards(tier, seed, families=None):
     out = []
-    for f in (families or list(FAMILIES)):
+    for f in (families or [x for x in FAMILIES if x != 'c04']):
         out.extend(SHARDERS[f](tier, seed))
     return out
